@@ -357,3 +357,21 @@ Fixpoint mon_delivery_from (i : nat) (res : list jres) (ans : list jans) {struct
      else true) && mon_delivery_from (S i) res' ans
   end.
 Definition mon_delivery (res : list jres) (ans : list jans) : bool := mon_delivery_from 0 res ans.
+
+(* harness op trcut (the answer to call 0 is cut after k bytes; followers use the same
+   connection group).  Result classes: 1 value / 2 nil / 3 error / 4 still running at the
+   watchdog (hang) / 0 not run because an earlier call hung.
+     mon_cut     call 0 ended with an error (never a message) and every follower with a
+                 message: in the model a failed exchange closes the connection
+                 (C06_pool_failure_closes), a closed connection is never idle nor held
+                 (C06_pool_exclusive: held or idle => CLoop), so a follower's Grab / Connect
+                 gives it a live connection and its hand-off is enabled;
+     mon_nohang  every call returned. *)
+Definition mon_cut (res : list jres) : bool :=
+  match res with
+  | [] => false
+  | r0 :: rest => Nat.eqb (jr_class r0) 3 && forallb (fun r => Nat.eqb (jr_class r) 1) rest
+  end.
+
+Definition mon_nohang (res : list jres) : bool :=
+  forallb (fun r => negb (Nat.eqb (jr_class r) 4) && negb (Nat.eqb (jr_class r) 0)) res.
